@@ -2,66 +2,48 @@
 
 package vtrace
 
-import (
-	"bytes"
-	"runtime"
-	"strconv"
-	"sync"
-)
+import "sync"
 
 // On reports whether hooks are compiled in.
 const On = true
 
+// One call is recorded at a time: the verification driver runs one traced call per
+// process. Calls made while no recording is active (e.g. concurrent drivers) emit
+// nothing.
 var (
-	mu      sync.Mutex
-	buffers = map[uint64]*[]Event{}
+	mu     sync.Mutex
+	active bool
+	events []Event
 )
 
-// goid returns the id of the calling goroutine (parsed from the stack header; only
-// used in verification builds).
-func goid() uint64 {
-	var buf [64]byte
-	n := runtime.Stack(buf[:], false)
-	// "goroutine 123 [running]:"
-	b := buf[:n]
-	b = bytes.TrimPrefix(b, []byte("goroutine "))
-	if i := bytes.IndexByte(b, ' '); i > 0 {
-		b = b[:i]
-	}
-	id, _ := strconv.ParseUint(string(b), 10, 64)
-	return id
-}
-
-// Begin starts recording for the calling goroutine.
-func Begin() {
-	id := goid()
-	evs := make([]Event, 0, 64)
+// Begin starts recording. It reports false, and records nothing, if a recording
+// is already active.
+func Begin() bool {
 	mu.Lock()
-	buffers[id] = &evs
-	mu.Unlock()
+	defer mu.Unlock()
+	if active {
+		return false
+	}
+	active = true
+	events = make([]Event, 0, 256)
+	return true
 }
 
-// End stops recording for the calling goroutine and returns its events.
+// End stops recording and returns the recorded events.
 func End() []Event {
-	id := goid()
 	mu.Lock()
-	p := buffers[id]
-	delete(buffers, id)
-	mu.Unlock()
-	if p == nil {
-		return nil
-	}
-	return *p
+	defer mu.Unlock()
+	evs := events
+	active = false
+	events = nil
+	return evs
 }
 
-// Emit appends an event to the buffer of the calling goroutine, if it is recording.
+// Emit appends an event to the active recording, if there is one.
 func Emit(name string, kv ...interface{}) {
-	id := goid()
 	mu.Lock()
-	p := buffers[id]
-	mu.Unlock()
-	if p == nil {
-		return
+	if active {
+		events = append(events, Event{Name: name, KV: kv})
 	}
-	*p = append(*p, Event{Name: name, KV: kv})
+	mu.Unlock()
 }
